@@ -229,3 +229,35 @@ Proof.
   split; [ exact Ea | ]. split; [ reflexivity | ]. split; [ lia | ]. split; [ | cbn; auto ].
   intros Hf. rewrite Hf in Ed. cbn [negb andb] in Ed. apply negb_false_iff in Ed. exact Ed.
 Qed.
+
+Lemma update_pal_ok_bounds k flex adm nof l n maxpal r :
+  update_pal k flex adm nof l n maxpal = Ok r ->
+  r = l /\ adm = true /\ nof = true /\ 1 <= l <= maxpal /\ k <> FBase /\
+  ((k = FTokenMerge \/ (k = FVending /\ flex = false)) -> check_dynamic_pal l n maxpal = true).
+Proof.
+  unfold update_pal. intros H.
+  destruct nof; cbn [negb] in H; [ | discriminate ].
+  destruct adm; cbn [negb] in H; [ | discriminate ].
+  destruct ((l =? 0) || (maxpal <? l)) eqn:El; [ discriminate | ].
+  apply orb_false_iff in El. destruct El as [E1 E2].
+  destruct k; try discriminate.
+  - destruct (negb flex && negb (check_dynamic_pal l n maxpal)) eqn:Ed; [ discriminate | ]. inv H.
+    repeat split; try lia; try discriminate;
+      try (intros [Hk|[_ Hf]]; [ discriminate | ]; subst flex; cbn [negb andb] in Ed; apply negb_false_iff in Ed; exact Ed).
+  - inv H. repeat split; try lia; try discriminate; try (intros [Hk|[Hk _]]; discriminate).
+  - destruct (negb (check_dynamic_pal l n maxpal)) eqn:Ed; [ discriminate | ]. inv H.
+    repeat split; try lia; try discriminate; try (intros _; apply negb_false_iff in Ed; exact Ed).
+Qed.
+
+(* the vending handler model applies exactly this rule *)
+Lemma update_pal_is_vending_step vr s e fp wv l :
+  is_ok (step vr s e fp wv (OUpdatePerAddressLimit l)) =
+  is_ok (update_pal FVending (v_flex vr) (is_admin_sender s e)
+                    (match e_funds e with [] => true | _ => false end) l (s_num_tokens s) (fp_max_per_address fp)).
+Proof.
+  cbn [step]. unfold update_pal, nonpayable.
+  destruct (e_funds e); cbn [bind negb is_ok]; [ | reflexivity ].
+  destruct (is_admin_sender s e); cbn [negb]; [ | reflexivity ].
+  destruct ((l =? 0) || (fp_max_per_address fp <? l)); [ reflexivity | ].
+  destruct (negb (v_flex vr) && negb (check_dynamic_pal l (s_num_tokens s) (fp_max_per_address fp))); reflexivity.
+Qed.
